@@ -49,6 +49,28 @@ type scn struct {
 	// closeRace: the application fetches one message and commits it (synchronously) while another goroutine
 	// closes the Reader; schedules are explored at the synchronisation and channel points of reader.go
 	closeRace bool
+	// twoTopics: the group subscribes to topics "t" and "u" (one partition each, keyed 0 and 1 in the oracles) and the
+	// application commits the messages of both with one CommitMessages call, so that one OffsetCommit request
+	// carries two topics
+	twoTopics bool
+}
+
+// pk maps a topic partition to the key the oracles use: partitions 0 and 1 of topic t, or (two topics) t/0 and u/0.
+func (sc *scn) pk(topic string, part int) int {
+	if sc.twoTopics {
+		if topic == "u" {
+			return 1
+		}
+		return 0
+	}
+	return part
+}
+
+func (sc *scn) tp(k int) fk.TP {
+	if sc.twoTopics {
+		return fk.TP{Topic: []string{"t", "u"}[k], Part: 0}
+	}
+	return fk.TP{Topic: "t", Part: k}
 }
 
 func (sc *scn) scenario() *qx.Scenario {
@@ -60,16 +82,21 @@ func (sc *scn) scenario() *qx.Scenario {
 	}
 	return &qx.Scenario{Name: sc.name, Cfg: cfg, Body: func(x *qx.Exec) *qx.Outcome {
 		c := fk.New(1)
-		c.AddTopic("t", 2, nil)
+		if sc.twoTopics {
+			c.AddTopic("t", 1, nil)
+			c.AddTopic("u", 1, nil)
+		} else {
+			c.AddTopic("t", 2, nil)
+		}
 		for p := 0; p < 2; p++ {
 			b := &refwire.Batch{Format: 2, Base: 0, Last: nrec - 1}
 			for o := int64(0); o < nrec; o++ {
 				b.Recs = append(b.Recs, refwire.Rec{Offset: o, TS: 1000 + o, Value: []byte(fmt.Sprintf("p%d-%d", p, o))})
 			}
-			c.Part("t", p).Append(b)
+			c.Part(sc.tp(p).Topic, sc.tp(p).Part).Append(b)
 		}
 		for p, o := range sc.committed {
-			c.SetCommitted("g", "t", p, o)
+			c.SetCommitted("g", sc.tp(p).Topic, sc.tp(p).Part, o)
 		}
 		c.OnEvent = x.Notify
 		var mu sync.Mutex
@@ -89,7 +116,11 @@ func (sc *scn) scenario() *qx.Scenario {
 		appCtx, appCancel := context.WithCancel(context.Background())
 		defer appCancel()
 		newMember := func(name string) {
-			r := kafka.NewReader(kafka.ReaderConfig{Brokers: []string{"b1:9092"}, GroupID: "g", Topic: "t", Dialer: &kafka.Dialer{DialFunc: c.Dial, Timeout: 3 * time.Second},
+			topic1, topics2 := "t", []string(nil)
+			if sc.twoTopics {
+				topic1, topics2 = "", []string{"t", "u"}
+			}
+			r := kafka.NewReader(kafka.ReaderConfig{Brokers: []string{"b1:9092"}, GroupID: "g", Topic: topic1, GroupTopics: topics2, Dialer: &kafka.Dialer{DialFunc: c.Dial, Timeout: 3 * time.Second},
 				MinBytes: 1, MaxBytes: 1 << 20, MaxWait: 200 * time.Millisecond, QueueCapacity: 2, HeartbeatInterval: time.Second, SessionTimeout: 6 * time.Second, RebalanceTimeout: 6 * time.Second,
 				JoinGroupBackoff: time.Second, CommitInterval: sc.interval, StartOffset: kafka.FirstOffset, ReadBackoffMin: 50 * time.Millisecond, ReadBackoffMax: 200 * time.Millisecond,
 				MaxAttempts: 3, ReadBatchTimeout: 4 * time.Second, RetentionTime: time.Hour})
@@ -105,21 +136,51 @@ func (sc *scn) scenario() *qx.Scenario {
 						close(delivered)
 						return
 					}
-					rec(evt{Member: name, Kind: "deliver", Part: m.Partition, Off: m.Offset})
+					rec(evt{Member: name, Kind: "deliver", Part: sc.pk(m.Topic, m.Partition), Off: m.Offset})
 					close(delivered)
 					vhook.Point(vhook.KUser, nil) // the application can be descheduled between the two calls
-					rec(evt{Member: name, Kind: "commit-call", Part: m.Partition, Off: m.Offset})
+					rec(evt{Member: name, Kind: "commit-call", Part: sc.pk(m.Topic, m.Partition), Off: m.Offset})
 					cerr := r.CommitMessages(appCtx, m)
 					es := ""
 					if cerr != nil {
 						es = cerr.Error()
 					}
-					rec(evt{Member: name, Kind: "commit-ret", Part: m.Partition, Off: m.Offset, Err: es})
+					rec(evt{Member: name, Kind: "commit-ret", Part: sc.pk(m.Topic, m.Partition), Off: m.Offset, Err: es})
 				})
 				x.Go("closer-"+name, func() {
 					<-delivered
 					r.Close()
 					appCancel()
+				})
+				return
+			}
+			if sc.twoTopics {
+				x.Go("app-"+name, func() {
+					ctx := appCtx
+					for {
+						// two messages, then one CommitMessages call for both
+						var ms []kafka.Message
+						for len(ms) < 2 {
+							m, err := r.FetchMessage(ctx)
+							if err != nil {
+								rec(evt{Member: name, Kind: "end", Err: err.Error()})
+								return
+							}
+							rec(evt{Member: name, Kind: "deliver", Part: sc.pk(m.Topic, m.Partition), Off: m.Offset})
+							ms = append(ms, m)
+						}
+						for _, m := range ms {
+							rec(evt{Member: name, Kind: "commit-call", Part: sc.pk(m.Topic, m.Partition), Off: m.Offset})
+						}
+						cerr := r.CommitMessages(ctx, ms...)
+						es := ""
+						if cerr != nil {
+							es = cerr.Error()
+						}
+						for _, m := range ms {
+							rec(evt{Member: name, Kind: "commit-ret", Part: sc.pk(m.Topic, m.Partition), Off: m.Offset, Err: es})
+						}
+					}
 				})
 				return
 			}
@@ -137,20 +198,20 @@ func (sc *scn) scenario() *qx.Scenario {
 						rec(evt{Member: name, Kind: "end", Err: err.Error()})
 						return
 					}
-					rec(evt{Member: name, Kind: "deliver", Part: m.Partition, Off: m.Offset})
+					rec(evt{Member: name, Kind: "deliver", Part: sc.pk(m.Topic, m.Partition), Off: m.Offset})
 					if sc.readMsg {
 						// ReadMessage committed it (sync) or queued the commit (interval) before returning
-						rec(evt{Member: name, Kind: "commit-call", Part: m.Partition, Off: m.Offset})
-						rec(evt{Member: name, Kind: "commit-ret", Part: m.Partition, Off: m.Offset})
+						rec(evt{Member: name, Kind: "commit-call", Part: sc.pk(m.Topic, m.Partition), Off: m.Offset})
+						rec(evt{Member: name, Kind: "commit-ret", Part: sc.pk(m.Topic, m.Partition), Off: m.Offset})
 						continue
 					}
-					rec(evt{Member: name, Kind: "commit-call", Part: m.Partition, Off: m.Offset})
+					rec(evt{Member: name, Kind: "commit-call", Part: sc.pk(m.Topic, m.Partition), Off: m.Offset})
 					cerr := r.CommitMessages(ctx, m)
 					es := ""
 					if cerr != nil {
 						es = cerr.Error()
 					}
-					rec(evt{Member: name, Kind: "commit-ret", Part: m.Partition, Off: m.Offset, Err: es})
+					rec(evt{Member: name, Kind: "commit-ret", Part: sc.pk(m.Topic, m.Partition), Off: m.Offset, Err: es})
 				}
 			})
 		}
@@ -165,7 +226,7 @@ func (sc *scn) scenario() *qx.Scenario {
 				return false
 			}
 			for p := 0; p < 2; p++ {
-				if g.Offsets[fk.TP{Topic: "t", Part: p}] < nrec {
+				if g.Offsets[sc.tp(p)] < nrec {
 					return false
 				}
 			}
@@ -280,7 +341,7 @@ func (sc *scn) judge(x *qx.Exec, c *fk.Cluster, st qx.Status, mu *sync.Mutex, ev
 					// so the acknowledgement time is compared with the time the message was handed out
 					at = e.AnsweredAt
 				}
-				acks = append(acks, ack{at, int(p.PartitionIndex), p.CommittedOffset, r.MemberID, e.Seq})
+				acks = append(acks, ack{at, sc.pk(t.Name, int(p.PartitionIndex)), p.CommittedOffset, r.MemberID, e.Seq})
 			}
 		}
 	}
@@ -330,18 +391,19 @@ func (sc *scn) judge(x *qx.Exec, c *fk.Cluster, st qx.Status, mu *sync.Mutex, ev
 				for _, p := range t.PartitionIndexes {
 					// the value served: committed offset at answer time, reconstructed from the acks before it
 					v := int64(-1)
-					if iv, ok := sc.committed[int(p)]; ok {
+					k := sc.pk(t.Name, int(p))
+					if iv, ok := sc.committed[k]; ok {
 						v = iv
 					}
 					for _, a := range acks {
-						if a.part == int(p) && a.seq < e.Seq+1 && answeredBefore(c, a.seq, e) {
+						if a.part == k && a.seq < e.Seq+1 && answeredBefore(c, a.seq, e) {
 							v = a.off
 						}
 					}
 					if v < 0 {
 						v = 0 // StartOffset: FirstOffset
 					}
-					allRestarts[int(p)][v] = true
+					allRestarts[k][v] = true
 				}
 			}
 		}
@@ -386,7 +448,7 @@ func (sc *scn) judge(x *qx.Exec, c *fk.Cluster, st qx.Status, mu *sync.Mutex, ev
 		sort.Ints(offs)
 		co := int64(-1)
 		if g != nil {
-			if v, ok := g.Offsets[fk.TP{Topic: "t", Part: p}]; ok {
+			if v, ok := g.Offsets[sc.tp(p)]; ok {
 				co = v
 			}
 		}
@@ -439,6 +501,7 @@ func suite(tier string) []qx.SuiteItem {
 		{name: "one-member-readmessage", readMsg: true, committed: map[int]int64{0: 1}, faults: map[protocol.ApiKey][]string{protocol.OffsetCommit: {"err:27", "drop"}, protocol.OffsetFetch: {"err:15", "drop"}}, bound: b},
 		{name: "second-member-joins-and-leaves", second: true, faults: map[protocol.ApiKey][]string{protocol.OffsetCommit: {"err:27"}}, bound: b},
 		{name: "close-vs-sync-commit", closeRace: true, bound: b},
+		{name: "two-topics-one-commit-call", twoTopics: true, faults: map[protocol.ApiKey][]string{protocol.OffsetCommit: {"err:27", "drop"}, protocol.Heartbeat: {"err:27"}}, bound: b},
 		{name: "resume-with-uncommitted-first-partition", committed: map[int]int64{1: 2}, faults: map[protocol.ApiKey][]string{protocol.Heartbeat: {"err:27"}, protocol.OffsetFetch: {"drop"}}, bound: b},
 		{name: "eviction", evict: true, faults: map[protocol.ApiKey][]string{protocol.Heartbeat: {"err:25"}, protocol.JoinGroup: {"err:25"}}, bound: b},
 	}
